@@ -136,7 +136,7 @@ fn judge_pair(ctx: &mut Ctx, a: &MV, b: &MV, ca: &Version, cb: &Version, how: &s
 }
 
 pub fn pool(r: &mut Rng, big: bool) -> Vec<MV> {
-    let atoms: &[&str] = &["0", "1", "2", "9", "10", "a", "A", "b", "alpha", "-", "a-", "0a", "1a", "-a", "18446744073709551615", "18446744073709551614", "1e5", "2E10", "7e-3", "0x10", "inf", "900719925474099"];
+    let atoms: &[&str] = &["0", "1", "2", "9", "10", "a", "A", "b", "alpha", "-", "a-", "0a", "1a", "-a", "18446744073709551615", "18446744073709551614", "1e5", "2E10", "7e-3", "0x10", "inf", "900719925474099", "v", "dev", "V", "x", "rev"];
     let mut pres: Vec<Vec<String>> = vec![vec![]];
     for x in atoms {
         pres.push(vec![x.to_string()]);
@@ -177,6 +177,8 @@ pub fn run(ctx: &mut Ctx) {
     let cs: Vec<Version> = p.iter().map(|v| v.to_crate()).collect();
     // parsed twins (only where the text parses; parse itself is C05/C12's subject)
     let parsed: Vec<Option<Version>> = p.iter().map(|v| guarded(|| Version::parse(v.text())).ok().and_then(|r| r.ok())).collect();
+    // the other textual entry point (FromStr, which serde's Deserialize also uses)
+    let from_str: Vec<Option<Version>> = p.iter().map(|v| guarded(|| v.text().parse::<Version>()).ok().and_then(|r| r.ok())).collect();
     ctx.note("pool size", if ctx.shard == 0 { p.len() as u64 } else { 0 });
     // the parsed twin of every pool version must be precedence-equal to (and Eq with) the twin
     // built through the fields: identifier classification at parse time is part of the order
@@ -185,14 +187,18 @@ pub fn run(ctx: &mut Ctx) {
         if !ctx.take() {
             continue;
         }
-        if let Some(x) = &parsed[i] {
+        for (which, x) in [("parsed-twin", &parsed[i]), ("from-str-twin", &from_str[i])] {
+            let x = match x {
+                Some(x) => x,
+                None => continue,
+            };
             ctx.eval(1);
-            ctx.class("twin");
+            ctx.class(which);
             if x.cmp(&cs[i]) != Ordering::Equal || x != &cs[i] || x.pre_release != cs[i].pre_release {
                 ctx.violation(
-                    &format!("precedence/parsed-twin/{}", p[i].pre.iter().map(|s| if all_digits(s) { "num" } else if s.as_bytes()[0].is_ascii_digit() { "digit-initial" } else { "alpha" }).collect::<Vec<_>>().join(",")),
+                    &format!("precedence/{}/{}", which, p[i].pre.iter().map(|s| if all_digits(s) { "num" } else if s.as_bytes()[0].is_ascii_digit() { "digit-initial" } else { "alpha" }).collect::<Vec<_>>().join(",")),
                     json!({"version": p[i].text()}),
-                    format!("Version::parse({:?}) = {:?} is not precedence-equal to the same version built from its denoted identifiers {:?}", p[i].text(), x, cs[i]),
+                    format!("{}: text {:?} read as {:?} is not precedence-equal to the same version built from its denoted identifiers {:?}", which, p[i].text(), x, cs[i]),
                 );
             }
         }
